@@ -65,10 +65,10 @@ func (f *Subsetp) Call(s *slip.Scope, args slip.List, depth int) slip.Object {
 		tc    slip.Caller
 	)
 
-	if list1, ok = args[0].(slip.List); !ok {
+	if list1, ok = listArg(args[0]); !ok {
 		slip.TypePanic(s, depth, "list-1", args[0], "list")
 	}
-	if list2, ok = args[1].(slip.List); !ok {
+	if list2, ok = listArg(args[1]); !ok {
 		slip.TypePanic(s, depth, "list-1", args[1], "list")
 	}
 	args = args[2:]
